@@ -332,6 +332,46 @@ func ruleNumBase(p *Program, r *Reporter) {
 					default:
 						r.OkNT(key, p.Pos(ins.Pos()), "base 10, 64 bits")
 					}
+					if full == "strconv.ParseUint" {
+						// an unsigned result that becomes one of our (signed) integers
+						// must have been compared with a bound first
+						v, _ := ins.(ssa.Value)
+						if v == nil || v.Referrers() == nil {
+							continue
+						}
+						for _, ref := range *v.Referrers() {
+							ex, ok := ref.(*ssa.Extract)
+							if !ok || ex.Index != 0 || ex.Referrers() == nil {
+								continue
+							}
+							for _, r2 := range *ex.Referrers() {
+								cv, ok := r2.(*ssa.Convert)
+								if !ok {
+									continue
+								}
+								bt, ok := cv.Type().Underlying().(*types.Basic)
+								if !ok || bt.Info()&types.IsInteger == 0 || bt.Info()&types.IsUnsigned != 0 {
+									continue
+								}
+								guarded := false
+								for _, r3 := range *ex.Referrers() {
+									if bo, ok := r3.(*ssa.BinOp); ok && (bo.Op == token.LEQ || bo.Op == token.LSS || bo.Op == token.GTR || bo.Op == token.GEQ) {
+										for _, r4 := range *bo.Referrers() {
+											if iff, ok := r4.(*ssa.If); ok {
+												for _, sc := range iff.Block().Succs {
+													if len(sc.Preds) == 1 && (sc == cv.Block() || sc.Dominates(cv.Block())) {
+														guarded = true
+													}
+												}
+											}
+										}
+									}
+								}
+								wkey := siteKey(p, fn, cv.Pos(), "unsigned text value becomes a signed integer only within range")
+								r.Check(guarded, wkey, p.Pos(cv.Pos()), "compared with a bound before the conversion", "the result of ParseUint is converted to a signed integer without being compared with a bound: a literal from 2^63 to 2^64-1 is accepted and wraps to a negative number (9223372036854775808 becomes -9223372036854775808) instead of being rejected")
+							}
+						}
+					}
 				case "strconv.ParseFloat":
 					key := siteKey(p, fn, ins.Pos(), "decimal text is read as a 64-bit float")
 					bits, ok := constInt(cc.Args[1])
@@ -779,6 +819,53 @@ func tokenTests(pr *parserRoles) (curIs, peekIs *ssa.Function) {
 	return
 }
 
+// recordsParseError: the instruction appends to the parser's error list, or
+// calls a method of the parser which does so on every path to its returns.
+func recordsParseError(pr *parserRoles, ins ssa.Instruction) bool {
+	isRecord := func(in ssa.Instruction) bool {
+		st, ok := in.(*ssa.Store)
+		if !ok || fieldKey(st.Addr) != pr.errorField {
+			return false
+		}
+		_, isApp := isBuiltinCall(st.Val, "append")
+		return isApp
+	}
+	if isRecord(ins) {
+		return true
+	}
+	c, ok := ins.(*ssa.Call)
+	if !ok {
+		return false
+	}
+	cal := c.Call.StaticCallee()
+	if cal == nil || len(cal.Blocks) == 0 || !recvNamed(cal, "parser", "Parser") {
+		return false
+	}
+	var recBlocks []*ssa.BasicBlock
+	for _, b := range cal.Blocks {
+		for _, in := range b.Instrs {
+			if isRecord(in) {
+				recBlocks = append(recBlocks, b)
+			}
+		}
+	}
+	for _, b := range cal.Blocks {
+		if _, ok := terminator(b).(*ssa.Return); !ok {
+			continue
+		}
+		dom := false
+		for _, rb := range recBlocks {
+			if rb == b || rb.Dominates(b) {
+				dom = true
+			}
+		}
+		if !dom {
+			return false
+		}
+	}
+	return len(recBlocks) > 0
+}
+
 func ruleSeenToken(p *Program, r *Reporter) {
 	pr := resolveParserRoles(p, r)
 	if pr == nil {
@@ -840,9 +927,13 @@ func ruleSeenToken(p *Program, r *Reporter) {
 				key := fmt.Sprintf("%s/advance %d lands on a token that was or will be looked at", p.FnName(fn), idx)
 				// (1) examined afterwards on every path
 				after := true
-				seen := map[*ssa.BasicBlock]bool{}
-				var fwd func(bl *ssa.BasicBlock, from int)
-				fwd = func(bl *ssa.BasicBlock, from int) {
+				type fwdState struct {
+					b   *ssa.BasicBlock
+					rec bool
+				}
+				seen := map[fwdState]bool{}
+				var fwd func(bl *ssa.BasicBlock, from int, rec bool)
+				fwd = func(bl *ssa.BasicBlock, from int, rec bool) {
 					if !after {
 						return
 					}
@@ -851,23 +942,30 @@ func ruleSeenToken(p *Program, r *Reporter) {
 						if examines(in) {
 							return
 						}
+						if recordsParseError(pr, in) {
+							rec = true
+						}
 						if c2, ok := in.(*ssa.Call); ok && moves(c2) {
 							after = false
 							return
 						}
 						if _, ok := in.(*ssa.Return); ok {
-							after = false
+							// a return after an error was recorded rejects the
+							// script: nothing is accepted by not looking
+							if !rec {
+								after = false
+							}
 							return
 						}
 					}
 					for _, s := range bl.Succs {
-						if !seen[s] {
-							seen[s] = true
-							fwd(s, 0)
+						if !seen[fwdState{s, rec}] {
+							seen[fwdState{s, rec}] = true
+							fwd(s, 0, rec)
 						}
 					}
 				}
-				fwd(b, i+1)
+				fwd(b, i+1, false)
 				if after {
 					r.Ok(key, p.Pos(c.Pos()), "the token is examined after the advance on every path")
 					continue
@@ -2223,6 +2321,49 @@ func ruleMatchOnce(p *Program, r *Reporter) {
 	if len(calls) == 0 {
 		r.Undecided(key, p.Pos(fn.Pos()), "the function does not call a regexp matching method")
 		return
+	}
+	if len(calls) > 1 {
+		// sibling calls agree about what the pattern is applied to
+		var shape func(v ssa.Value, d int) string
+		shape = func(v ssa.Value, d int) string {
+			if d > 6 {
+				return "…"
+			}
+			switch x := v.(type) {
+			case *ssa.Call:
+				if cal := x.Call.StaticCallee(); cal != nil && len(x.Call.Args) > 0 && fnPkg(cal) != nil && !IsLibPath(fnPkg(cal).Pkg.Path()) {
+					// how the subject is cut into lines is not a preparation of the line
+					if full := calleeFullName(&x.Call); strings.HasPrefix(full, "strings.Split") || strings.HasPrefix(full, "strings.Fields") {
+						return shape(x.Call.Args[0], d+1)
+					}
+					return calleeFullName(&x.Call) + "(" + shape(x.Call.Args[0], d+1) + ")"
+				}
+			case *ssa.UnOp:
+				if ia, ok := x.X.(*ssa.IndexAddr); ok && x.Op == token.MUL {
+					return shape(ia.X, d+1)
+				}
+			case *ssa.Phi:
+				set := map[string]bool{}
+				for _, e := range x.Edges {
+					set[shape(e, d+1)] = true
+				}
+				return setStr(set)
+			}
+			return "the subject"
+		}
+		shapes := map[string]bool{}
+		for _, c := range calls {
+			cc := callOf(c)
+			if len(cc.Args) >= 2 {
+				shapes[shape(cc.Args[1], 0)] = true
+			}
+		}
+		skey := p.FnName(fn) + "/every application of the pattern sees the subject prepared the same way"
+		if len(shapes) > 1 {
+			r.Fail(skey, p.Pos(calls[0].Pos()), "the function applies the pattern in several places and they disagree about what it is applied to ("+setStr(shapes)+"): the answer for a value then depends on which path handled it — a padded single line against an anchored pattern, say")
+		} else {
+			r.OkNT(skey, p.Pos(calls[0].Pos()), setStr(shapes))
+		}
 	}
 	for _, c := range calls {
 		b := c.Block()
